@@ -43,6 +43,68 @@ def perturb(x, mode):
     return x
 
 
+def perturb_inplace(x, mode):
+    """Same perturbation, but assigning into the existing containers (the way a user edits a deep copy of params)."""
+    if isinstance(x, dict):
+        for k in list(x):
+            if k in ("datum", "rounding"):
+                continue
+            v = x[k]
+            if isinstance(v, (dict, list)):
+                perturb_inplace(v, mode)
+            elif isinstance(v, np.ndarray):
+                if v.dtype.kind == "f":
+                    v *= 1.07
+                elif mode == "all" and v.dtype.kind in "iu":
+                    v += 1
+            else:
+                x[k] = perturb(v, mode)
+    elif isinstance(x, list):
+        for i, v in enumerate(x):
+            if isinstance(v, (dict, list, np.ndarray)):
+                perturb_inplace(v, mode)
+            else:
+                x[i] = perturb(v, mode)
+
+
+def mutable_ids(x, acc):
+    if isinstance(x, dict):
+        acc[id(x)] = x
+        for v in x.values():
+            mutable_ids(v, acc)
+    elif isinstance(x, list):
+        acc[id(x)] = x
+        for v in x:
+            mutable_ids(v, acc)
+    elif isinstance(x, np.ndarray):
+        acc[id(x)] = x
+    return acc
+
+
+def task_aliasing(date_iso):
+    """No mutable object is shared between two parameter groups, nor between two environments of the same date."""
+    out = Partial()
+    p1, f1 = harness.fresh_env(date_iso)
+    p2, f2 = harness.fresh_env(date_iso)
+    out.step()
+    out.state(("aliasing", date_iso))
+    owner = {}
+    for g in p1:
+        for i, obj in mutable_ids(p1[g], {}).items():
+            if i in owner and owner[i] != g:
+                out.violation(f"aliasing:groups-share-object:{owner[i]}+{g}", {"date": date_iso, "groups": [owner[i], g]},
+                              f"params[{owner[i]!r}] and params[{g!r}] share one mutable object on {date_iso}: {str(obj)[:80]}")
+            owner.setdefault(i, g)
+    ids2 = {}
+    for g in p2:
+        mutable_ids(p2[g], ids2)
+    shared = set(owner) & set(ids2)
+    if shared:
+        g = owner[next(iter(shared))]
+        out.violation(f"aliasing:environments-share-object:{g}", {"date": date_iso, "group": g}, "two calls of set_up_policy_environment return parameter objects that share mutable state")
+    return out.dump()
+
+
 def graph_info(date_iso, cols, f):
     nodes = sim.all_nodes(date_iso, tuple(cols))
     dag = sim.dag_for(date_iso, tuple(cols))
@@ -92,9 +154,13 @@ def task_params(arg):
         users, allowed = allowed_for_group(g, nodes, dag, fn)
         case = {"date": date_iso, "households": names, "group": g}
         changed_any = False
-        for mode in ("all", "floats", "rounding"):
+        for mode in ("all", "floats", "rounding", "inplace-on-deepcopy"):
             q = dict(p)
-            if mode == "rounding":
+            if mode == "inplace-on-deepcopy":
+                # the documented way of writing a reform: deep-copy the whole dictionary, then edit one group in place
+                q = copy.deepcopy(p)
+                perturb_inplace(q[g], "floats")
+            elif mode == "rounding":
                 if "rounding" not in p[g]:
                     continue
                 q[g] = copy.deepcopy(p[g])
@@ -232,6 +298,8 @@ def run(tier):
     pops = [POP, POP2] if thorough else [POP]
     ptasks = [(d, pop, [g]) for d in dates for pop in pops for g in INTERNAL_PARAMS_GROUPS]
     for part in harness.pmap(task_params, harness.rotate(ptasks)):
+        rep.merge(part)
+    for part in harness.pmap(task_aliasing, [d.isoformat() for d in popgen.d15()]):
         rep.merge(part)
     fdates = dates if thorough else dates[1:2]
     ftasks = []
